@@ -7,6 +7,8 @@
      k     : "j:name" |-> value text       integer constant `name` as seen through ffi[j] / lib[j]
      lay   : "j:struct s1" |-> aggregate record as seen through ffi[j] (layout from the included module)
      reach : (api) "j:i:fn|gv|k:name" |-> "ok" | text   lib[j] reaches the function / variable / constant of lib[i]
+             (asked through lib[j] before any other lib of the chain was touched; for a variable: same
+             address, same type object, and a value written through lib[j] is read through lib[i])
      err   : "" or the build / import error
    Verdict per record and mode: <<"VERDICT", id, mode, V, D>>, V = failing property clauses
    <<clause, item, class>> (class # "" iff it is exactly the divergence the implementation
@@ -18,14 +20,18 @@ Traces == JsonDeserialize(IOEnv.TRACE_FILE)
 
 Has(f, x) == x \in DOMAIN f
 
+\* a "NewFFI" record carries inc = the positions of the FFIs the new one includes, in include() order
 RECURSIVE RunChain(_, _, _, _)
 RunChain(beh, i, ch, ev) ==
   IF i > Len(beh) THEN [envs |-> Append(ch, ev), bad |-> 0]
-  ELSE IF beh[i].a = "NewFFI" THEN RunChain(beh, i + 1, Append(ch, ev), IncludeE(EnvInit, ev))
+  ELSE IF beh[i].a = "NewFFI"
+       THEN LET envs == Append(ch, ev)
+            IN IF (\A q \in DOMAIN beh[i].inc : beh[i].inc[q] \in 1..Len(envs)) /\ IncludeAllG(EnvInit, envs, beh[i].inc, 1)
+               THEN RunChain(beh, i + 1, envs, IncludeAll(EnvInit, envs, beh[i].inc, 1))
+               ELSE [envs |-> envs, bad |-> i]
   ELSE IF Guard(ev, beh[i]) THEN RunChain(beh, i + 1, ch, Effect(ev, beh[i]))
   ELSE [envs |-> Append(ch, ev), bad |-> i]
 
-OwnerTd(envs, j, n) == CHOOSE i \in 1..j : n \in DOMAIN envs[i].td /\ <<"td", n>> \notin envs[i].inc
 Key3(j, i, kind, name) == ToString(j) \o ":" \o ToString(i) \o ":" \o kind \o ":" \o name
 Key1(j, name) == ToString(j) \o ":" \o name
 
@@ -43,7 +49,7 @@ Verdict(r, mode) ==
       n == Len(envs)
       o == r.obs[mode]
       gen == mode \in {"ool", "api"}
-      Ms == [j \in 1..n |-> Encode(envs[j])]
+      Ms == Tup([j \in 1..n |-> Encode(envs[j])])
       recreated == "identity:enum-of-included-ffi-recreated-in-generated-module"
       \* ---- identity of what came in through include()
       tdItems == {<<j, nm>> \in (1..n) \X UNION {DOMAIN envs[j].td : j \in 1..n} :
@@ -60,9 +66,9 @@ Verdict(r, mode) ==
       cycle == "realize:aggregate-needed-by-value-while-under-construction"
       tdClass(x) == IF mode = "ool" /\ failed(tdKey(x)) /\ TouchesCycle(envs[x[1]], envs[x[1]].td[x[2]]) THEN cycle
                     ELSE IF gen /\ HasEnum(envs[x[1]].td[x[2]])
-                       /\ ModelId(Ms, x[1], envs[x[1]].td[x[2]]) # IdealId(envs, x[1], envs[x[1]].td[x[2]])
+                       /\ ModelId(Ms, envs, x[1], envs[x[1]].td[x[2]]) # IdealId(envs, x[1], envs[x[1]].td[x[2]])
                     THEN recreated ELSE ""
-      enClass(x) == IF gen /\ ModelId(Ms, x[1], <<"enum", x[2]>>) # IdealId(envs, x[1], <<"enum", x[2]>>)
+      enClass(x) == IF gen /\ ModelId(Ms, envs, x[1], <<"enum", x[2]>>) # IdealId(envs, x[1], <<"enum", x[2]>>)
                     THEN recreated ELSE ""
       vSame == {<<"same", tdKey(x), tdClass(x)>> : x \in {x \in tdItems : ~ok(tdKey(x))}}
                \cup {<<"same", suKey(x), IF mode = "ool" /\ failed(suKey(x)) /\ TouchesCycle(envs[x[1]], x[2]) THEN cycle ELSE "">>
@@ -78,30 +84,33 @@ Verdict(r, mode) ==
       vLay == {<<"lay", layKey(x), "">> :
                   x \in {x \in layItems : ~(Has(o.lay, layKey(x)) /\ SUMatches(o.lay[layKey(x)], AggObs(envs[x[1]], x[2])))}}
       \* ---- API mode: lib[j] reaches functions, variables, constants of lib[i]
-      own(i) == [fn |-> DOMAIN envs[i].fn, gv |-> DOMAIN envs[i].gv,
-                 k |-> {c \in DOMAIN envs[i].kc : <<"k", c>> \notin envs[i].inc}]
-      \* lookup order (lib_build_and_cache_attr): own globals first, then the included lib, recursively:
-      \* a name defined again in a later module of the chain hides the earlier one
-      hidden(j, i, x) == \E m \in (i + 1)..j : x \in (DOMAIN envs[m].fn) \cup (DOMAIN envs[m].gv)
-      reachKeys == UNION {UNION {{Key3(j, i, "fn", f) : f \in {f \in own(i).fn : ~hidden(j, i, f)}}
-                                 \cup {Key3(j, i, "gv", g) : g \in {g \in own(i).gv : ~hidden(j, i, g)}}
-                                 \cup {Key3(j, i, "k", c) : c \in own(i).k} : i \in 1..(j - 1)} : j \in 1..n}
+      \* every name lib[i] defines itself, for every i that j includes directly or not (names defined
+      \* again elsewhere among j and its includes are left to the lookup order)
+      reachItems == UNION {UNION {{<<j, i, x>> : x \in {x \in OwnNames(envs, i) : MustReach(envs, j, i, x)}}
+                                  : i \in 1..n} : j \in 1..n}
+      kindOf(i, x) == IF x \in DOMAIN envs[i].fn THEN "fn" ELSE IF x \in DOMAIN envs[i].gv THEN "gv" ELSE "k"
+      reachKey(t) == Key3(t[1], t[2], kindOf(t[2], t[3]), t[3])
+      reachKeys == {reachKey(t) : t \in reachItems}
       vReach == IF mode = "api"
                 THEN {<<"reach", key, "">> : key \in {key \in reachKeys : ~(Has(o.reach, key) /\ o.reach[key] = "ok")}}
                 ELSE {}
       \* ---- model divergences: the generated modules' identity against the model's prediction
       dSame == IF gen
                THEN {<<"model", tdKey(x)>> : x \in {x \in tdItems :
-                         ok(tdKey(x)) # (ModelId(Ms, x[1], envs[x[1]].td[x[2]]) = IdealId(envs, x[1], envs[x[1]].td[x[2]]))}}
+                         ok(tdKey(x)) # (ModelId(Ms, envs, x[1], envs[x[1]].td[x[2]]) = IdealId(envs, x[1], envs[x[1]].td[x[2]]))}}
                     \cup {<<"model", suKey(x)>> : x \in {x \in suItems :
-                         ok(suKey(x)) # (ModelId(Ms, x[1], x[2]) = IdealId(envs, x[1], x[2]))}}
+                         ok(suKey(x)) # (ModelId(Ms, envs, x[1], x[2]) = IdealId(envs, x[1], x[2]))}}
                     \cup {<<"model", enKey(x)>> : x \in {x \in enItems :
-                         ok(enKey(x)) # (ModelId(Ms, x[1], <<"enum", x[2]>>) = IdealId(envs, x[1], <<"enum", x[2]>>))}}
+                         ok(enKey(x)) # (ModelId(Ms, envs, x[1], <<"enum", x[2]>>) = IdealId(envs, x[1], <<"enum", x[2]>>))}}
                ELSE {}
   IN IF run.bad # 0 THEN << {<<"guard", ToString(run.bad), "">>}, {} >>
      ELSE IF o.err # ""
           THEN << {<<"build", o.err, "">>}, {} >>
-     ELSE << vSame \cup vK \cup vLay \cup vReach, dSame >>
+     ELSE << vSame \cup vK \cup vLay \cup vReach,
+             dSame \cup (IF mode = "api"
+                         THEN {<<"model", reachKey(t)>> : t \in {t \in reachItems :
+                                  (ModelReach(Ms, envs, t[1], t[3]) = t[2]) # (Has(o.reach, reachKey(t)) /\ o.reach[reachKey(t)] = "ok")}}
+                         ELSE {}) >>
 
 TInit == k \in 1..Len(Traces) /\ done = FALSE /\ cenv = EnvInit /\ hist = <<>> /\ variant = "faithful" /\ chain = <<>>
 TNext == /\ ~done
